@@ -142,6 +142,7 @@ func init() {
 			if !ok {
 				panic(unsupported("Unmarshal into a non-pointer"))
 			}
+			ex.avpObligations(fr, pc, pos, pt.Elem(), "Unmarshal")
 			v := freshValue(pt.Elem(), "unmarshal")
 			ex.assumeWF(st, pc, v)
 			ex.storeObj(st, pt.Elem(), d.Pay, v)
@@ -161,6 +162,9 @@ func init() {
 	externWrites["(*github.com/fiorix/go-diameter/diam.Message).Answer"] = []string{"next"}
 	regExtern("(*github.com/fiorix/go-diameter/diam.Message).Marshal", "Message.Marshal(src): records src in ghostMarshalled; any error result",
 		func(ex *Exec, fr *Frame, st *State, pc *Term, fn *ssa.Function, args []Value, pos token.Pos) (Value, *Term) {
+			if d, ok := args[1].(VIface); ok && d.Tag.IsConst() && tagTypes[d.Tag.Val] != nil {
+				ex.avpObligations(fr, pc, pos, tagTypes[d.Tag.Val], "Marshal")
+			}
 			if g, ok := ex.ghostVar(fr, "ghostMarshalled"); ok {
 				ex.ghostStore(st, g, args[1])
 			}
